@@ -9,8 +9,17 @@ def payloads(r):
     out = []
     for ln in [0, 1, 5, 40, 75, 76, 80, 200, 255, 256, 300, 1000, 3000]:
         for form in ['direct', 'pd1', 'pd2', 'pd4']:
-            for kind in ['ascii', 'utf8', 'bad', 'nl']:
+            for kind in ['ascii', 'utf8', 'bad', 'nl', 'special']:
                 if kind == 'ascii': d = bytes(r.randrange(32, 127) for _ in range(ln))
+                elif kind == 'special':
+                    # valid UTF-8 made of code points a decoder may treat specially: U+FFFD itself, BOM, noncharacters, NUL, the ends of the scalar ranges
+                    cps = [0xFFFD, 0xFEFF, 0xFFFE, 0xFFFF, 0, 0x7f, 0x80, 0x7ff, 0x800, 0xd7ff, 0xe000, 0x10000, 0x10ffff, 0x1b, 0x0d]
+                    d = b''
+                    while True:
+                        e = chr(r.choice(cps)).encode()
+                        if len(d) + len(e) > ln: break
+                        d += e
+                    d += b'.' * (ln - len(d))
                 elif kind == 'utf8': d = gen.utf8_text(r, ln)
                 elif kind == 'nl': d = (b'two\nlines\n\nheight: 3         txid: ' + b'0' * 63 + b'    data: fake (63 hex digits: the harness splits stdout on the exact line prefix)')[:ln]
                 else: d = (bytes([r.choice([0x80, 0xc0, 0xf5, 0xff])]) + gen.rb(r, ln))[:ln]
@@ -21,8 +30,8 @@ def payloads(r):
 def explore(ck):
     r = ck.rng; quick = ck.tier == 'quick'
     ck.rule = ('opreturn runs on chains whose outputs carry OP_RETURN <one push> for every push form (direct, PUSHDATA1/2/4, minimal and non-minimal) x payload length 0..3000 x {ASCII, multi-byte UTF-8, '
-               'invalid UTF-8, embedded newlines and look-alike lines}, several OP_RETURN outputs per transaction, OP_RETURN outputs that are not a single push, mixed with every other script type, '
-               'x bitcoin/testnet3/fork coins x ranges; the printed lines (height, txid, payload bytes) are compared with the model and with the property evaluated by the python reference '
+               'invalid UTF-8, embedded newlines and look-alike lines, valid text made of U+FFFD / BOM / noncharacters / NUL / range ends}, several OP_RETURN outputs per transaction, OP_RETURN outputs that are not a single push, mixed with every other script type, '
+               'x bitcoin/testnet3/fork coins x ranges, and runs that fail inside the last block (the lines of the blocks before it must have been printed); the printed lines (height, txid, payload bytes) are compared with the model and with the property evaluated by the python reference '
                '(printed iff single push, non-empty and - on bitcoin/testnet3 - valid UTF-8; fork coins print the lossy text). Non-trivial: >= 1 printed and >= 1 suppressed OP_RETURN output in the '
                'same run; distinct by case.')
     P = payloads(r)
@@ -47,6 +56,9 @@ def explore(ck):
             b = Block(prev, txs, time=1400000000 + h); blocks.append(b); prev = b.hash; h += 1
         c = Case('o%d' % k, coin).simple_layout(blocks)
         if k % 3 == 2 and len(blocks) > 2: c.start = 1; c.end = len(blocks) - 2
+        if k % 4 == 1 and len(blocks) > 2:
+            # the blk file ends inside the last block: the run fails there, the lines of the earlier blocks have been printed
+            o, dta = c.files[0][-1]; c.files[0][-1] = (o, dta[:len(dta) - len(blocks[-1].raw) // 2]); c.meta['cut'] = True
         c.meta['blocks'] = blocks; cases.append(c)
     def nontrivial(c, m):
         printed = len(m['opret']); total = sum(1 for b in c.meta['blocks'] for t in b.txs for v, s in t.outputs if s[:1] == b'\x6a')
@@ -56,6 +68,9 @@ def explore(ck):
     # the property, from the generator's side: expected lines by the python reference
     for c in cases:
         m = models[c.id]
+        if c.meta.get('cut'):
+            ck.count('runs failing inside the last block: %d lines printed before' % min(len(m['opret']), 1))
+            if m['status'][0] != 'error': ck.disagreement('model does not fail on the cut case ' + c.id, str(m['status']), c, in_domain=False)
         if m['status'][0] != 'done': continue
         exp = []
         lo = c.start; hi = c.end if c.end is not None else len(c.meta['blocks']) - 1
